@@ -84,6 +84,7 @@ Theorem C15_refuted_value_one_prefix :
   let r := MkCR [uone; meter; odd] [(1%positive, 0%nat); (2%positive, 1%nat)] [(1%positive, 2%positive)] 1%positive 10 [] in
   registry_okb r = true /\ dec_unit r (enc_unit_old r odd) = DOk (c_tbl r, 1%nat) /\ dec_unit r (enc_unit r odd) = DOk (c_tbl r, 2%nat).
 Proof. vm_compute. repeat split; reflexivity. Qed.
+Print Assumptions C15_refuted_value_one_prefix.
 
 (* non-vacuity: a registry with a named base unit, a prefixed compound and a prefixed One satisfies the checks *)
 Example C15_json_nonvacuous :
@@ -115,6 +116,7 @@ Theorem C15_refuted_stale_pickle :
     p_names (fst (pload false (pname r 1 7%positive) d)) = [[1%positive]; []] /\
     p_names (fst (pload true (pname r 1 7%positive) d)) = [[1%positive]; [7%positive]].
 Proof. eexists. split; [reflexivity|]. vm_compute. split; reflexivity. Qed.
+Print Assumptions C15_refuted_stale_pickle.
 
 (* ---- quantities: the JSON / pydantic / SQL composite document holds the magnitude with its type and the unit as str(unit) ----
    It round-trips exactly when the unit's text parses back to that unit (C13's statement for that unit), whatever the magnitude; and when it
